@@ -290,7 +290,11 @@ func genC18(t *rapid.T) c18Case {
 	}
 	scripts := []HexBytes{{}, {0}, {0, 0}, {1}, {0, 0xff}, genBytes(t, "s", 0, 30)}
 	for i := 0; i < nin; i++ {
-		c.Ins = append(c.Ins, c18In{Hash: mkHash(), Index: uint32(rapid.IntRange(0, 3).Draw(t, "idx")),
+		idx := uint32(rapid.IntRange(0, 3).Draw(t, "idx"))
+		if rapid.IntRange(0, 2).Draw(t, "bigidx") == 0 { // indices whose byte order matters
+			idx = rapid.SampledFrom([]uint32{255, 256, 257, 511, 512, 65535, 65536, 1 << 24, 0x01000001, 0xfffffffe, 0xffffffff}).Draw(t, "idxb")
+		}
+		c.Ins = append(c.Ins, c18In{Hash: mkHash(), Index: idx,
 			Seq: rapid.Uint32().Draw(t, "seq"), Script: scripts[rapid.IntRange(0, len(scripts)-1).Draw(t, "ss")]})
 	}
 	for i := 0; i < nout; i++ {
